@@ -206,10 +206,37 @@ def across_runs(case):
             'sample': None}
 
 
+def cancelled_before_its_date(rng):
+    """tasks that are to start at a date (also the date 0, with the clock still below zero) or
+    after a delay are cancelled before that: none of their code runs"""
+    start = rng.choice([-5, -3, -0.5, 0, 2])
+    children = []
+    for number, (key, value) in enumerate([('at', 0), ('at', start + 4), ('after', 4),
+                                           ('at', 0.0)]):
+        if key == 'at' and value <= start:
+            continue
+        children.append({'name': 'late%d' % number, 'volatile': False, key: value, 'steps': [
+            {'op': 'wait', 'n': {'k': 'delay', 'd': 1}, 'id': 'l%d' % number}]})
+    body = [{'op': 'wait', 'n': {'k': 'delay', 'd': rng.choice([0.25, 0.5])}, 'id': 'b0'}]
+    for position, child in enumerate(children):
+        body.append({'op': 'cancel', 'task': child['name'], 'id': 'c%d' % position,
+                     'yield': rng.random() < 0.5})
+    body.append({'op': 'wait', 'n': {'k': 'delay', 'd': 6}, 'id': 'b1'})
+    for position, child in enumerate(children):
+        body.append({'op': 'await_task', 'task': child['name'], 'catch': True,
+                     'id': 'a%d' % position})
+    steps = [{'op': 'scope', 'id': 's0', 'n': None, 'catch': False, 'children': children,
+              'body': body}]
+    return {'objects': {}, 'roots': [{'name': 'r0', 'steps': steps}], 'start': start,
+            'till': None}
+
+
 def build(case):
     rng = random.Random('%s/%s/c06' % (case['seed'], case['index']))
     if case['index'] % 25 == 24:
         return withdrawn_by_cleanup(rng), rng
+    if case['index'] % 25 == 22:
+        return cancelled_before_its_date(rng), rng
     gen = Gen(rng, weights=WEIGHTS, max_depth=3, max_steps=4, max_roots=3,
               start_times=(0, 0, 0, -2, -0.5, 0.5))
     return gen.program(), rng
